@@ -2156,6 +2156,15 @@ def ismask(v):
 # e.l or e.r because these objects might be used also in other
 # expressions. See tests/test_cas_exp.py for details.
 
+def _keep_sf(e, res):
+    "the bit-sliced form of e keeps the sign flag of e (composer takes the flag of its last part)"
+    if res.sf != e.sf:
+        from copy import copy
+        res = copy(res)
+        res.sf = e.sf
+    return res
+
+
 def eqn2_helpers(e, bitslice=False, widening=False):
     "helpers for simplifying binary expressions"
     threshold = conf.Cas.complexity
@@ -2229,18 +2238,18 @@ def eqn2_helpers(e, bitslice=False, widening=False):
             c[i1 : i2 + 1] = e.l[i1 : i2 + 1]
             return c.simplify()
         elif bitslice and e.op.symbol in (OP_AND, OP_OR, OP_XOR):
-            return composer(
+            return _keep_sf(e, composer(
                 [e.op(e.l[i : i + 1], e.r[i : i + 1]) for i in range(e.size)]
-            )
+            ))
         elif bitslice and e.op.symbol == OP_LSL:
-            return composer(
+            return _keep_sf(e, composer(
                 [bit0] * e.r.value
                 + [e.l[i : i + 1] for i in range(0, e.size - e.r.value)]
-            )
+            ))
         elif bitslice and e.op.symbol == OP_LSR:
-            return composer(
+            return _keep_sf(e, composer(
                 [e.l[i : i + 1] for i in range(e.r.value, e.size)] + [bit0] * e.r.value
-            )
+            ))
         # if e:= (l [>> <<] r) then e:= l[i1:i2]
         elif e.op.symbol in (OP_LSL, OP_LSR):
             c = comp(e.l.size)
